@@ -211,7 +211,10 @@ class OpenAPISchemaResolver(SchemaTypeResolver):
 
             current_filename = os.path.basename(current_file)
             expected_filename = f"{module_stem}.py"
-            is_self_import = current_filename == expected_filename
+            # ... and only a file of the models package can be that model's own module: endpoints/pet.py (the
+            # client of tag "pet") is not models/pet.py
+            current_dirname = os.path.basename(os.path.dirname(current_file))
+            is_self_import = current_filename == expected_filename and current_dirname in ("models", "")
 
         if is_self_import:
             # This is a self-import (importing from the same file), so skip the import
